@@ -367,6 +367,44 @@ def case_set_url(case, res):
                         return
                 finally:
                     loop.close()
+    # an ACCEPTED change of the URL list after earlier fail-overs: the next call succeeds and
+    # goes to the first URL of the new list
+    for nurls in (1, 2, 3):
+        for failovers in range(0, nurls):
+            for nnew in (1, 2, 3):
+                loop = VLoop()
+                loop.enter()
+                try:
+                    urls = ','.join(f'http://u:p@host{i}:8332/' for i in range(nurls))
+                    d = dmod.Daemon(BitcoinSVRegtest, urls, init_retry=0.25, max_retry=4)
+                    # the real fail-over path: a call that meets 5 faults per dead URL
+                    d.session = Session(loop, ['disconnected'] * (5 * failovers), B)
+                    t = loop.create_task(d.height())
+                    loop.run_default(until=t.done, max_steps=20000)
+                    moved = d.url_index
+                    problem = None
+                    try:
+                        d.set_url(','.join(f'http://u:p@other{i}:8332/' for i in range(nnew)))
+                    except Exception as e:       # noqa
+                        problem = f'good-url-list-refused:{type(e).__name__}'
+                    res.count('executions')
+                    res.count('call_sequences')
+                    if not problem:
+                        d.session = Session(loop, [], B)
+                        t = loop.create_task(d.height())
+                        loop.run_default(until=t.done, max_steps=20000)
+                        if not t.done() or t.exception() or t.result() != B.height:
+                            problem = 'call-fails-after-accepted-set_url'
+                        elif 'other0' not in d.session.requests[0][1]:
+                            problem = 'call-after-set_url-not-sent-to-the-first-new-url'
+                    if problem:
+                        res.violation(problem, dict(case, nurls=nurls, failovers=failovers, nnew=nnew),
+                                      dict(url_index_before_set_url=moved, urls_after=list(d.urls),
+                                           error=repr(t.exception()) if t.done() and not t.cancelled()
+                                           and t.exception() else None))
+                        return
+                finally:
+                    loop.close()
 
 
 def run_case(case, res):
